@@ -5,6 +5,7 @@ import (
 
 	"verif/internal/explore"
 	"verif/internal/h"
+	"verif/internal/ir"
 )
 
 func init() { register("C02", "model_checking", checkC02) }
@@ -34,6 +35,7 @@ func wiringSpecs(n int, devBound int, prefix string) ([]specCase, explore.Stats)
 			}
 			x.Choose("variadic", 2)
 			x.Choose("errs", 2)
+			x.Choose("paramnames", 3) // injector parameters named, blank (_) or unnamed
 			x.Choose("depth", 3)    // the named set wrapped in 0..2 further named sets
 			if reachableDag(n, adj) {
 				x.Choose("place", 3) // 0 one named set, 1 one named set per node, 2 per node and declared pairwise in one var spec
@@ -57,6 +59,7 @@ func wiringSpecs(n int, devBound int, prefix string) ([]specCase, explore.Stats)
 			// a struct-kind node in lib with fields from the root package would be an import cycle: impossible by construction (deps are lower-numbered)
 			g.Split = ch["split"] == 1
 			g.Depth = ch["depth"]
+			g.ParamNames = ch["paramnames"]
 			if ch["place"] > 0 {
 				g.InSet, g.PerNode, g.Split = false, true, false
 				g.PairSets = ch["place"] == 2
@@ -89,9 +92,85 @@ func checkC02(c *h.Check) {
 		specs = append(specs, s...)
 		exp[fmt.Sprintf("n=%d", n)] = map[string]interface{}{"dags": 1 << uint(dagEdgeBits(n)), "deviation_bound": b, "executions": st.Executions, "skipped": st.Skipped}
 	}
+	specs = append(specs, noCallSpecs()...)
+	specs = append(specs, rootNamedLibSpecs()...)
 	cases, results := runSpecs(c, specs, map[string]bool{"wiring": true})
 	stdCoverage(c, cases, results, "all DAGs on N labelled types (node i depends on a subset of lower-numbered nodes, last node is the result), function providers by default; deviations (bounded per N, see explorer): node source kind (struct pointer/value, field, pointer-to-field, binding, value, injector parameter), type shape (leaf, pointer, named int, interface, slice), lib-package placement, nested lib set, variadic parameter, error/cleanup mix, nesting depth of the set (0-2 extra levels), one named set per node (also declared pairwise in one var spec), a second injector over the same set objects declared before or after the first. Oracle: every provider argument / struct field / selected field / result carries the identity minted by the model's designated source in the same call; exactly the needed providers run, once. Distinct = distinct rendered source.")
 	c.Coverage["explorer"] = exp
 	sampleCase(c, cases, results)
 	c.Assumptions = append(c.Assumptions, "data independence: identities stand for all injector argument values")
+}
+
+// noCallSpecs: injectors whose result needs no provider call at all: an argument returned directly, an
+// interface bound to one of several arguments (the others implement it too), a value, a field of an argument.
+func noCallSpecs() []specCase {
+	var out []specCase
+	for which := 0; which < 3; which++ {
+		for nparams := 1; nparams <= 3; nparams++ {
+			if which >= nparams {
+				continue
+			}
+			for names := 0; names < 3; names++ {
+				which, nparams, names := which, nparams, names
+				g := &GraphSpec{}
+				g.custom = func(b *ir.Builder) *ir.Program {
+					p := b.Root
+					iface := b.Iface(p, "Store")
+					var params []ir.Param
+					var concs []*ir.Type
+					for i := 0; i < nparams; i++ {
+						cc := b.Leaf(p, fmt.Sprintf("Impl%d", i))
+						cc.PtrRecv = true
+						cc.Impls = []*ir.Type{iface}
+						concs = append(concs, ir.Ptr(cc))
+						pn := fmt.Sprintf("arg%d", i)
+						if names == 1 {
+							pn = "_"
+						} else if names == 2 {
+							pn = "-"
+						}
+						params = append(params, ir.Param{Name: pn, T: ir.Ptr(cc)})
+					}
+					inj := &ir.Injector{Name: "Init", Params: params, Out: iface, Items: []*ir.Item{ir.BindItem(iface, concs[which])}}
+					inj2 := &ir.Injector{Name: "Init2", Params: params, Out: concs[which]}
+					return &ir.Program{Root: p, Injectors: []*ir.Injector{inj, inj2}}
+				}
+				out = append(out, specCase{fmt.Sprintf("C02/nocall/bound-arg=%d-of-%d/names=%d", which, nparams, names), g})
+			}
+		}
+	}
+	return out
+}
+
+// rootNamedLibSpecs: a provider package whose package NAME equals the injector package's name and which
+// declares the same identifiers as the injector's package: the generated call must reach the library's function.
+func rootNamedLibSpecs() []specCase {
+	var out []specCase
+	for viaSet := 0; viaSet < 2; viaSet++ {
+		for localKind := 0; localKind < 2; localKind++ {
+			viaSet, localKind := viaSet, localKind
+			g := &GraphSpec{}
+			g.custom = func(b *ir.Builder) *ir.Program {
+				p := b.Root
+				lp := &ir.Pkg{Name: "p", Rel: "internal/p"}
+				conn := b.Leaf(lp, "Conn")
+				libNew := &ir.Func{Pkg: lp, Name: "NewConn", Out: conn}
+				r := b.Leaf(p, "R")
+				// the injector's own package has a function of the same name (and, for localKind 1, a same-named type)
+				localT := b.Leaf(p, "Local")
+				if localKind == 1 {
+					localT = b.Leaf(p, "Conn")
+				}
+				local := &ir.Func{Pkg: p, Name: "NewConn", Out: localT}
+				var item *ir.Item = ir.FuncItem(libNew)
+				if viaSet == 1 {
+					item = ir.SetRef(&ir.Set{Pkg: lp, Name: "Set", Items: []*ir.Item{ir.FuncItem(libNew)}})
+				}
+				inj := &ir.Injector{Name: "Init", Out: r, Items: []*ir.Item{item, ir.FuncItem(&ir.Func{Pkg: p, Name: "PR", Params: []*ir.Type{conn}, Out: r})}}
+				return &ir.Program{Root: p, Injectors: []*ir.Injector{inj}, ExtraFuncs: []*ir.Func{local}}
+			}
+			out = append(out, specCase{fmt.Sprintf("C02/rootnamedlib/set=%d/local=%d", viaSet, localKind), g})
+		}
+	}
+	return out
 }
